@@ -466,6 +466,10 @@ def _state_task(task, col):
                 probs, res = run_txn(case)
                 col.count("evaluations")
                 col.count("transitions")
+                col.nontrivial((init, history, op, form, str(ending)))
+                if op_index == 3 and kind == "btree" and form == "abs" and ending == "commit":
+                    col.sample({"zone": kind, "relativize": rel, "init": init, "history": hist_json, "ops": [list(op)],
+                                "names": form, "ending": ending}, limit=2)
                 col.outcome("1op:%s:%s" % (op[0], probs[0][0].split("/")[0] if probs else "ok"))
                 for s, w in probs:
                     col.violation("C10/" + s, w, case)
@@ -480,6 +484,7 @@ def _state_task(task, col):
                         probs, res = run_txn(case)
                         col.count("evaluations")
                         col.count("transitions")
+                        col.nontrivial((init, history, op, op2, forms, str(ending)))
                         col.outcome("2op:%s:%s" % (op[0] + "+" + op2[0], probs[0][0].split("/")[0] if probs else "ok"))
                         for s, w in probs:
                             col.violation("C10/" + s, w, case)
@@ -490,8 +495,7 @@ def _state_task(task, col):
             col.count("evaluations")
             for s, w in probs:
                 col.violation("C10/" + s, w, case)
-        col.sample({"init": init, "history": hist_json}, limit=2)
-        col.nontrivial((init, canon_model(model_state(init, history))))
+        col.sample({"init": init, "history": hist_json}, limit=1)
 
 
 def _triple_task(task, col):
